@@ -1,40 +1,97 @@
-import os, pickle, time
+"""Multi-process stand-in for mpi4py (real MPI cannot load here).  N ranks = N OS
+processes; blocking collectives rooted anywhere, implemented through files in
+FAKE_MPI_DIR.  Semantics are exactly those of coq/Model/Bsp.v: a collective is a
+deposit by every rank followed by each rank picking up the combined result.
+
+Optional: FAKE_MPI_TRACE=<dir>  -> every collective is logged to <dir>/coll.<rank>
+          FAKE_MPI_DELAY=<seed> -> a pseudo-random sleep before every collective
+                                   (varies the interleaving of the ranks)"""
+import os
+import pickle
+import random
+import time
+
+
 class _Comm:
     def __init__(self):
-        self.rank=int(os.environ.get('FAKE_MPI_RANK','0')); self.size=int(os.environ.get('FAKE_MPI_SIZE','1'))
-        self.dir=os.environ.get('FAKE_MPI_DIR','/tmp/fakempi'); self.seq=0
-    def Get_rank(self): return self.rank
-    def Get_size(self): return self.size
-    def _put(self,name,obj):
-        tmp=os.path.join(self.dir,name+'.tmp%d'%self.rank)
-        with open(tmp,'wb') as f: pickle.dump(obj,f)
-        os.rename(tmp,os.path.join(self.dir,name))
-    def _get(self,name,timeout=600):
-        p=os.path.join(self.dir,name); t0=time.time()
+        self.rank = int(os.environ.get('FAKE_MPI_RANK', '0'))
+        self.size = int(os.environ.get('FAKE_MPI_SIZE', '1'))
+        self.dir = os.environ.get('FAKE_MPI_DIR', '/var/tmp/fakempi')
+        self.seq = 0
+        self.trace = os.environ.get('FAKE_MPI_TRACE')
+        d = os.environ.get('FAKE_MPI_DELAY')
+        self.rng = random.Random('%s/%d' % (d, self.rank)) if d else None
+        self.timeout = float(os.environ.get('FAKE_MPI_TIMEOUT', '900'))
+
+    def Get_rank(self):
+        return self.rank
+
+    def Get_size(self):
+        return self.size
+
+    def _enter(self, op, root):
+        self.seq += 1
+        if self.trace:
+            with open(os.path.join(self.trace, 'coll.%d' % self.rank), 'a') as f:
+                f.write('%d %s %d\n' % (self.seq, op, root))
+        if self.rng is not None:
+            time.sleep(self.rng.choice([0, 0, 0.001, 0.005, 0.02]))
+
+    def _put(self, name, obj):
+        tmp = os.path.join(self.dir, name + '.tmp%d' % self.rank)
+        with open(tmp, 'wb') as f:
+            pickle.dump(obj, f)
+        os.rename(tmp, os.path.join(self.dir, name))
+
+    def _get(self, name):
+        p = os.path.join(self.dir, name)
+        t0 = time.time()
         while not os.path.exists(p):
             time.sleep(0.002)
-            if time.time()-t0>timeout: raise RuntimeError('fake mpi deadlock waiting for '+name)
-        with open(p,'rb') as f: return pickle.load(f)
-    def bcast(self,x,root=0):
-        self.seq+=1
-        if self.size==1: return x
-        if self.rank==root:
-            self._put('%d_b'%self.seq,x); return x
-        return self._get('%d_b'%self.seq)
-    def gather(self,x,root=0):
-        self.seq+=1
-        if self.size==1: return [x]
-        self._put('%d_g%d'%(self.seq,self.rank),x)
-        if self.rank==root:
-            return [self._get('%d_g%d'%(self.seq,r)) for r in range(self.size)]
+            if time.time() - t0 > self.timeout:
+                raise RuntimeError('fake mpi deadlock: rank %d waiting for %s' % (self.rank, name))
+        with open(p, 'rb') as f:
+            return pickle.load(f)
+
+    def bcast(self, x, root=0):
+        self._enter('bcast', root)
+        if self.size == 1:
+            return x
+        if self.rank == root:
+            self._put('%d_b' % self.seq, x)
+            return x
+        return self._get('%d_b' % self.seq)
+
+    def gather(self, x, root=0):
+        self._enter('gather', root)
+        if self.size == 1:
+            return [x]
+        self._put('%d_g%d' % (self.seq, self.rank), x)
+        if self.rank == root:
+            return [self._get('%d_g%d' % (self.seq, r)) for r in range(self.size)]
         return None
-    def scatter(self,x,root=0):
-        self.seq+=1
-        if self.size==1: return x[0]
-        if self.rank==root:
-            for r in range(self.size): self._put('%d_s%d'%(self.seq,r),x[r])
-        return self._get('%d_s%d'%(self.seq,self.rank))
+
+    def scatter(self, x, root=0):
+        self._enter('scatter', root)
+        if self.size == 1:
+            return x[0]
+        if self.rank == root:
+            for r in range(self.size):
+                self._put('%d_s%d' % (self.seq, r), x[r])
+        return self._get('%d_s%d' % (self.seq, self.rank))
+
     def Barrier(self):
-        self.gather(None,0); self.bcast(None,0)
-class _MPI: pass
-MPI=_MPI(); MPI.COMM_WORLD=_Comm()
+        self._enter('Barrier', 0)
+        if self.size == 1:
+            return
+        self._put('%d_B%d' % (self.seq, self.rank), None)
+        for r in range(self.size):
+            self._get('%d_B%d' % (self.seq, r))
+
+
+class _MPI:
+    pass
+
+
+MPI = _MPI()
+MPI.COMM_WORLD = _Comm()
